@@ -144,7 +144,7 @@ func c40RS(blob []byte) (r, s *big.Int, ok bool) {
 }
 
 func c40SignCase(rt *rapid.T, c *ev.Collector, env *c40Env) {
-	ck := pick(rt, "key", env.keys)
+	ck := pick(rt, "key", env.byType[pick(rt, "keytype", rk.PlainTypes)])
 	k := ck.k
 	n, lc := gen.Len(rt, "msglen", 300, 32, 64)
 	data, _ := gen.Bytes(rt, "msg", n)
@@ -169,7 +169,7 @@ func c40SignCase(rt *rapid.T, c *ev.Collector, env *c40Env) {
 		muts = append(muts, "rsa-zero-prefix", "rsa-strip-byte", "rsa-sig-plus-n")
 	}
 	if k.isSK() {
-		muts = append(muts, "sk-flags", "sk-flags", "sk-counter", "sk-rest-short", "sk-rest-long", "sk-rest-empty")
+		muts = append(muts, "sk-flags", "sk-flags", "sk-flags", "sk-counter", "sk-counter", "sk-rest-short", "sk-rest-long", "sk-rest-empty", "sk-flags", "sk-counter")
 	}
 	mut := pick(rt, "mutation", muts)
 	switch mut {
